@@ -30,6 +30,8 @@ def dense_of_cores(cores):
     """Dense value of a core list: tensor -> shape N, operator -> shape M+N (rows first)."""
     kind = cores_kind(cores)
     cs = [to_up(c) for c in cores]
+    if len({c.dtype for c in cs}) > 1:      # cores of mixed real / complex dtype (e.g. kron(real, complex), rank1TT of mixed vectors): contract in the common dtype
+        cs = [c.to(torch.complex128) for c in cs]
     if cs[0].shape[0] != 1 or cs[-1].shape[-1] != 1:
         raise ValueError('boundary ranks are not 1')
     t = cs[0].reshape(-1, cs[0].shape[-1])
